@@ -88,13 +88,16 @@ def getQ2 (fc : List (List Rat)) (i j : Nat) : Rat := (fc.getD i []).getD j 0
 def realCostOf (fc : List (List Rat)) (n m : Nat) (x : Mat) : Rat :=
   sumToQ n (fun i => sumToQ m (fun j => getQ2 fc i j * (get2 x i j : Rat)))
 
+/-- every entry in `[lo, hi]` (the bounds are computed once) -/
+def allBetween (lo hi : Rat) (fc : List (List Rat)) : Bool :=
+  fc.all (fun r => r.all (fun c => decide (c ≤ hi) && decide (lo ≤ c)))
+
 /-- the domain of the float constructor for C13, decidable: at most `2^31` rows; every cost at most
 `FLT_MAX` (finite) and at least `−nbSinks·maxVal`, where `maxVal = max(1e-8f, largest cost)`.  All
 non-negative finite matrices qualify.  (A negative cost is invisible to `maxVal`; the scaling keeps
 `|cost|·factor` below `INT_MAX/3` only while `|cost| ≤ (4/3)·nbSinks·maxVal`, see
 `C13.float_precondition_needed`.) -/
 def floatCostsOk (fc : List (List Rat)) : Bool :=
-  decide (fc.length ≤ 2147483648) &&
-  fc.all (fun r => r.all (fun c => decide (c ≤ fcFltMax) && decide (-((fc.length : Rat) * fcMaxVal fc) ≤ c)))
+  decide (fc.length ≤ 2147483648) && allBetween (-((fc.length : Rat) * fcMaxVal fc)) fcFltMax fc
 
 end ColoVerif.Transp
